@@ -106,7 +106,7 @@ def grep_forbidden():
     return hits
 
 
-def lean_side(prop, thorough=False):
+def lean_side(prop, thorough=False, driver=None):
     """Regenerate tables, build, audit the theorems of `prop`.
 
     Returns a dict with `obligations` (names), `discharged` (names), `failures`
@@ -131,7 +131,7 @@ def lean_side(prop, thorough=False):
         thms = entry.get('theorems', [])
         mods = entry.get('modules', [])
         res['obligations'] = list(thms)
-        rc, out = _lake(['build', 'DD', 'ddvdrv'] + mods)
+        rc, out = _lake(['build', 'DD', 'ddvdrv'] + ([driver] if driver else []) + mods)
         if rc != 0:
             res['ok'] = False
             res['failures'].append('lake build failed:\n' + out[-4000:])
@@ -477,6 +477,7 @@ class Ctx:
         self.pending = []         # (lines, answers, sections, label)
         self.budget_s = 60 if tier == 'quick' else 600
         self.driver = None        # name of the lean_exe that replays this check's sessions
+        self.shard, self.nshards = 0, 1   # thorough tier: this process's part of the work
 
     def time_left(self):
         return self.budget_s - (time.time() - self.t0)
